@@ -82,7 +82,7 @@ func C03(o *core.Options) int {
 		stride = 1
 	}
 	for i, m := range reps {
-		if i%stride == int(o.Seed)%stride {
+		if i%stride == int(o.Seed)%stride || m.IsTwin() || (strings.Contains(m.Signature(), "|r1=") && i%3 == 0) {
 			models = append(models, m)
 		}
 	}
